@@ -42,7 +42,32 @@ def build(mods, imps, level_limit=None, check=True):
         HUB.register_truth(ev, tm, ti)
     if check and (len(mods) * 31 + len(imps)) % 3 == 0:
         hostile_reads(ev, mods)
+    if (len(mods) * 17 + len(imps) * 5) % 6 == 0:
+        ev = copy_of(ev, "deepcopy" if len(imps) % 2 else "pickle")
     return ev
+
+
+def copy_of(ev, how):
+    """An architecture that went through copy.deepcopy or a pickle round trip (handed to a worker process, cached on
+    disk between two runs, copied by a fixture): the copy IS the architecture - same modules, same imports, same hierarchy,
+    flattened the same way - and is what the workload goes on with."""
+    import copy as _copy
+    import pickle as _pickle
+
+    try:
+        c = _copy.deepcopy(ev) if how == "deepcopy" else _pickle.loads(_pickle.dumps(ev))
+    except Exception as e:  # noqa: BLE001
+        HUB.violation("C15", f"architecture-cannot-be-copied:{how}:{type(e).__name__}", f"{how} of an evaluable architecture raised {type(e).__name__}: {e}", {})
+        return ev
+    a, b = graph_state(ev), graph_state(c)
+    HUB.acc.count("architectures_replaced_by_a_copy:" + how)
+    if a != b:
+        owner = getattr(HUB, "copy_owner", None) or "C15"
+        HUB.violation(owner, f"copied-architecture-differs:{how}", f"a {how} copy of an architecture has other modules / imports / hierarchy edges than its original", {"nodes_diff": sorted((a[0] ^ b[0]) if a and b else [])[:12], "edges_diff": sorted(map(str, (a[1] ^ b[1]) if a and b else []))[:12]})
+    t = HUB.truth.get(id(ev))
+    if t is not None:
+        HUB.register_truth(c, t[1], t[2])
+    return c
 
 
 class Recycler:
@@ -128,7 +153,7 @@ def _arg(names, as_list=None):
     return names[0]
 
 
-def mk_rule(cfg, list_form=None, retarget=None):
+def mk_rule(cfg, list_form=None, retarget=None, copied=None):
     """Builds the rule through the real fluent API.  retarget=(evaluable, decoy_name): the rule prefix is first
     completed with a decoy object and applied (outcome ignored), then the SAME object gets its real objects by
     calling the filter method again - the documented way of re-using a kept prefix; the last specification counts."""
@@ -145,6 +170,25 @@ def mk_rule(cfg, list_form=None, retarget=None):
         okind = cfg["objs"][0][0]
         HUB.acc.count("rules_retargeted_after_application")
         return getattr(r, FILTER_METHOD[okind])(_arg([n for _, n in cfg["objs"]], list_form))
+
+    if copied is not None and not cfg.get("anything") and cfg["objs"] and cfg["objs"][0][0] != "regex" and list_form not in ("generator", "map"):
+        # a kept rule prefix is COPIED (copy.deepcopy, or a pickle round trip - what a test that parametrises over rule
+        # prefixes or hands them to a worker process does); original and copy are then finished differently.  Each is
+        # its own rule: what was specified on one must not show in the other.
+        import copy as _copy
+        import pickle as _pickle
+
+        how, decoy = copied
+        p = _prefix(cfg, list_form)
+        c = _copy.deepcopy(p) if how == "deepcopy" else _pickle.loads(_pickle.dumps(p))
+        okind = cfg["objs"][0][0]
+        onames = [n for _, n in cfg["objs"]]
+        HUB.acc.count("rules_finished_on_a_copy_of_a_kept_prefix:" + how)
+        if len(decoy) % 2:
+            getattr(p, FILTER_METHOD["named"])(decoy)
+            return getattr(c, FILTER_METHOD[okind])(_arg(onames, list_form))
+        getattr(c, FILTER_METHOD["named"])(decoy)
+        return getattr(p, FILTER_METHOD[okind])(_arg(onames, list_form))
 
     r = Rule().modules_that()
     skind = cfg["subs"][0][0]
